@@ -44,6 +44,21 @@ type FuncContract struct {
 	File     string
 	Line     int
 	Fields   []*Clause // reset-coverage classification (C11)
+	AbstractCallees []string // calls havocked while verifying this function
+	ModAny   bool // "modifies *": no frame is claimed
+	Resets   []*ResetClause
+}
+
+// ResetClause: "resets <ptr expr> zero: f1, f2 scratch: g1, g2" classifies
+// every field of the pointed-to struct: zero fields must equal their zero
+// value at return; scratch fields are documented as overwritten before use.
+type ResetClause struct {
+	Target  *Clause
+	Zero    []string
+	Scratch []string
+	When    *Clause
+	Line    int
+	File    string
 }
 
 type CallSite struct {
@@ -53,13 +68,15 @@ type CallSite struct {
 }
 
 func (f *FuncContract) hasSpec() bool {
-	return len(f.Ensures) > 0 || f.HasMod
+	return len(f.Ensures) > 0 || f.HasMod || len(f.Resets) > 0
 }
 func (f *FuncContract) hasRequires() bool { return len(f.Requires) > 0 }
 
 type Param struct {
-	Name string
-	T    *TypeExpr
+	Name    string
+	T       *TypeExpr
+	Bounded bool // "in lo..hi": expanded into a finite conjunction/disjunction
+	Lo, Hi  uint64
 }
 
 type PureFunc struct {
@@ -325,6 +342,10 @@ func (p *sparser) parsePostfix() *Expr {
 		switch {
 		case p.accept("."):
 			t := p.next()
+			if t.k == "int" {
+				x = &Expr{Kind: "tupleat", X: x, Val: t.v}
+				continue
+			}
 			if t.k != "id" {
 				panic(fmt.Errorf("expected field name after '.'"))
 			}
@@ -380,8 +401,22 @@ func (p *sparser) parsePrimary() *Expr {
 					names = append(names, n2.s)
 				}
 				ty := p.parseType()
+				pr := Param{T: ty}
+				if p.peek().k == "id" && p.peek().s == "in" {
+					p.next()
+					lo := p.next()
+					p.expect(".")
+					p.expect(".")
+					hi := p.next()
+					if lo.k != "int" || hi.k != "int" {
+						panic(fmt.Errorf("expected 'in lo..hi' with integer literals"))
+					}
+					pr.Bounded, pr.Lo, pr.Hi = true, lo.v, hi.v
+				}
 				for _, nm := range names {
-					vars = append(vars, Param{nm, ty})
+					q := pr
+					q.Name = nm
+					vars = append(vars, q)
 				}
 				if p.accept("::") {
 					break
@@ -575,7 +610,9 @@ func (w *World) parseContractFile(pkgPath, file string) error {
 				return fail(l.n, "modifies outside func")
 			}
 			cur.HasMod = true
-			if strings.TrimSpace(rest) != "nothing" {
+			if strings.TrimSpace(rest) == "*" {
+				cur.ModAny = true
+			} else if strings.TrimSpace(rest) != "nothing" {
 				for _, part := range splitTop(rest, ',') {
 					cl, err := mkClause(part, l.n)
 					if err != nil {
@@ -637,6 +674,41 @@ func (w *World) parseContractFile(pkgPath, file string) error {
 				return err
 			}
 			cur.Asserts = append(cur.Asserts, &CallSite{Callee: callee, Occ: occ, C: cl})
+		case "resets":
+			if cur == nil {
+				return fail(l.n, "resets outside func")
+			}
+			zi := strings.Index(rest, " zero:")
+			if zi < 0 {
+				return fail(l.n, "expected 'resets <expr> zero: ... scratch: ...'")
+			}
+			tcl, err := mkClause(rest[:zi], l.n)
+			if err != nil {
+				return err
+			}
+			rc := &ResetClause{Target: tcl, Line: l.n + 1, File: file}
+			body := rest[zi+6:]
+			scr := ""
+			if si := strings.Index(body, "scratch:"); si >= 0 {
+				scr = body[si+8:]
+				body = body[:si]
+			}
+			for _, f := range strings.FieldsFunc(body, func(r rune) bool { return r == ',' || r == ' ' }) {
+				rc.Zero = append(rc.Zero, f)
+			}
+			for _, f := range strings.FieldsFunc(scr, func(r rune) bool { return r == ',' || r == ' ' }) {
+				rc.Scratch = append(rc.Scratch, f)
+			}
+			cur.Resets = append(cur.Resets, rc)
+		case "abstract":
+			if cur == nil {
+				return fail(l.n, "abstract outside func")
+			}
+			for _, part := range splitTop(rest, ',') {
+				if part != "" {
+					cur.AbstractCallees = append(cur.AbstractCallees, part)
+				}
+			}
 		case "inline":
 			if cur != nil {
 				cur.Inline = true
@@ -730,7 +802,7 @@ func parseParams(s string) ([]Param, error) {
 			}
 			t := p.parseType()
 			for _, n := range names {
-				out = append(out, Param{n, t})
+				out = append(out, Param{Name: n, T: t})
 			}
 			if !p.accept(",") {
 				break
@@ -946,6 +1018,35 @@ func (e *Env) eval(x *Expr) *Val {
 		a, b := unify(e.eval(x.Y), e.eval(x.Z))
 		return iteVal(cnd, a, b)
 	case "quant":
+		if len(x.Vars) > 0 && x.Vars[0].Bounded {
+			// finite expansion over lo..hi-1
+			v := x.Vars[0]
+			t := c.W.resolveType(v.T, e.pkg)
+			w, _, ok := isIntType(t)
+			if !ok {
+				specErr("bounded quantifier variable %s must be an integer", v.Name)
+			}
+			rest := &Expr{Kind: "quant", Op: x.Op, Vars: x.Vars[1:], X: x.X}
+			var parts []*Term
+			for k := v.Lo; k < v.Hi; k++ {
+				ne := e.child()
+				nb := map[string]*Val{}
+				for k2, v2 := range ne.bound {
+					nb[k2] = v2
+				}
+				nb[v.Name] = intVal(t, Const(w, k))
+				ne.bound = nb
+				if len(rest.Vars) == 0 {
+					parts = append(parts, ne.evalBool(x.X))
+				} else {
+					parts = append(parts, ne.evalBool(rest))
+				}
+			}
+			if x.Op == "forall" {
+				return boolVal(And(parts...))
+			}
+			return boolVal(Or(parts...))
+		}
 		ne := e.child()
 		var bound []*Term
 		for _, v := range x.Vars {
@@ -984,6 +1085,12 @@ func (e *Env) eval(x *Expr) *Val {
 		return boolVal(Exists(bound, body))
 	case "sel":
 		return e.evalSel(x)
+	case "tupleat":
+		tv := e.eval(x.X)
+		if _, ok := tv.Typ.(*types.Tuple); !ok {
+			specErr(".%d on a non-tuple value", x.Val)
+		}
+		return tupleAt(tv, int(x.Val))
 	case "index":
 		base := e.eval(x.X)
 		idx := e.eval(x.Y)
@@ -1823,6 +1930,9 @@ func reindexBound(k *Term, body *Term) (*Term, *Term, *Term) {
 	}
 	j := BoundVar("j", BV(64))
 	nbody := Subst(body, map[*Term]*Term{k: Sub(j, off)})
+	if !patternSafe(arr) {
+		return j, nbody, nil
+	}
 	return j, nbody, Select(arr, j)
 }
 
@@ -1920,4 +2030,30 @@ func (e *Env) callSpecOpaque(fn *ssa.Function, argExprs []*Expr) *Val {
 		out[j] = UF(fmt.Sprintf("%s#%d", name, j), rs[j], in...)
 	}
 	return mkVal(rt, out)
+}
+
+// patternSafe: triggers may not contain boolean connectives or ite.
+func patternSafe(t *Term) bool {
+	seen := map[*Term]bool{}
+	var rec func(x *Term) bool
+	rec = func(x *Term) bool {
+		if seen[x] {
+			return true
+		}
+		seen[x] = true
+		switch x.Op {
+		case "ite", "not", "and", "or", "=", "bvult", "bvule", "bvslt", "bvsle", "forall", "exists":
+			return false
+		}
+		if x.S == BoolSort && x.Op != "var" && x.Op != "const" {
+			return false
+		}
+		for _, a := range x.Args {
+			if !rec(a) {
+				return false
+			}
+		}
+		return true
+	}
+	return rec(t)
 }
